@@ -80,13 +80,32 @@ func SFileSys(fs FileSys) Session {
 
 func (sess *session) Stop(err error) error {
 	ctx := CancelledCtxt{}
-	sess.refs.Range(func(fid, ref1 interface{}) bool {
-		ref, ok := ref1.(*SFid)
-		if ok && ref.Ent != nil { // close and clunk
-			delRefAction(ctx, ref, false)
-		}
-		return true
-	})
+	// Take each SFid's lock before looking at it, like every other
+	// operation does.  This waits for the operation in flight on that fid
+	// (or for the Attach/Walk that reserved it), so that no entry is
+	// released under a running file-system call and whatever that
+	// operation binds is released as well.  Only one lock is held at a
+	// time, so this cannot dead-lock with Walk holding two.
+	// Repeat until a pass finds the table empty: a Walk that was waited
+	// for may have stored its newfid after the pass had started.
+	for again := true; again; {
+		again = false
+		sess.refs.Range(func(fid, ref1 interface{}) bool {
+			ref, ok := ref1.(*SFid)
+			if !ok {
+				return true
+			}
+			again = true
+			ref.Lock()
+			// Unbind, as delRef does; users racing with us see Ent == nil.
+			sess.refs.CompareAndDelete(fid, ref)
+			if ref.Ent != nil { // close and clunk
+				delRefAction(ctx, ref, false)
+			}
+			ref.Unlock()
+			return true
+		})
+	}
 	return err
 }
 
